@@ -1,4 +1,5 @@
 import RedisVerif.Props.C16
+import RedisVerif.Props.C16Script
 
 /-!
 # C16 — the RESP → Lua → RESP conversion, exactly, for EVERY reply
@@ -25,7 +26,7 @@ bulk / nil array at any depth, status and error texts that are not UTF-8, intege
 namespace RedisVerif
 namespace C16
 
-open Grammar LuaConv
+open Grammar LuaConv LuaScript
 
 mutual
 /-- what `lua_to_resp (resp_to_lua_value r)` is, as a function on replies -/
@@ -171,6 +172,38 @@ theorem status_reply_exact (s : Bytes) (h : validUtf8 s = true) :
     luaToResp (respToLua (.simple s)) = .simple s ∧ luaToResp (respToLua (.bulk (some s))) = .bulk (some s) ∧
     Resp.simple s ≠ .bulk (some s) := by
   refine ⟨by simp [respToLua, luaToResp, h], by simp [respToLua, luaToResp], by intro h'; cases h'⟩
+
+/-! ## what `return redis.pcall(…)` answers, for EVERY executor, state and reply
+
+  `pcall_reply_equals_direct_partial` needs `ConvStable` of the direct reply.  With `roundTrip` the statement holds without
+  a hypothesis on the reply: the EVAL answers `roundTrip` of what the client gets for the same words (an error reply stays
+  the error reply: `redis.pcall` hands the script `{err = …}`, which converts back), and leaves the state the client's
+  command leaves. -/
+
+theorem pcall_reply_exact {σ : Type} (exec : σ → Cmd → σ × Resp) (env : Env) (s : σ) (args : List AExpr)
+    (w : Bytes) (ws : List Bytes) (c : Cmd)
+    (hargs : argsBytes (args.map (AExpr.eval env [])) = some (w :: ws)) (hp : parseLua (w :: ws) = .ok c) :
+    evalScript exec env s ⟨[⟨true, args⟩], .res 0⟩ = ((exec s c).1, some (roundTrip (exec s c).2)) ∧
+    directStep exec s (w :: ws) = ((exec s c).1, some (exec s c).2) := by
+  obtain ⟨_, hd, hcall⟩ := call_equals_direct exec s true _ w ws c hargs hp
+  refine ⟨?_, hd⟩
+  rcases hx : exec s c with ⟨s', r⟩
+  rw [hx] at hcall
+  rw [callOutcome_prot] at hcall
+  simp only [evalScript, runCalls, runCallsA, hcall, Ret.eval, List.nil_append, List.getElem?_cons_zero]
+  rw [lua_roundtrip_exact r]
+
+/-- hence: script and client get the SAME reply exactly when the direct reply is `ConvStable` (for every executor) -/
+theorem pcall_reply_same_iff {σ : Type} (exec : σ → Cmd → σ × Resp) (env : Env) (s : σ) (args : List AExpr)
+    (w : Bytes) (ws : List Bytes) (c : Cmd)
+    (hargs : argsBytes (args.map (AExpr.eval env [])) = some (w :: ws)) (hp : parseLua (w :: ws) = .ok c) :
+    (evalScript exec env s ⟨[⟨true, args⟩], .res 0⟩).2 = (directStep exec s (w :: ws)).2 ↔
+      ConvStable (exec s c).2 = true := by
+  obtain ⟨h1, h2⟩ := pcall_reply_exact exec env s args w ws c hargs hp
+  rw [h1, h2]
+  simp only [Option.some.injEq]
+  rw [← lua_roundtrip_exact]
+  exact lua_roundtrip_iff _
 
 /-- non-vacuity / pinned shapes: a nil deep inside cuts only the array that holds it; a nil ARRAY cuts as a nil bulk
     does; a status that is not UTF-8 becomes the empty array; i64 extremes stay -/
